@@ -16,7 +16,7 @@ def build(arg, values):
     dx = [_val(values, 'dx%d' % k, 10. + 3 * k) for k in range(nx)]
     dy = [_val(values, 'dy%d' % k, 8. + 2 * k) for k in range(ny)]
     dz = [_val(values, 'dz%d' % k, 5. + k) for k in range(nz)]
-    org = [3., -7., _val(values, 'oz', 100.)]
+    org = [_val(values, 'ox', 3.), _val(values, 'oy', -7.), _val(values, 'oz', 100.)]
     geo = mulgrid().rectangular(dx, dy, dz, atmos_type=atm, convention=convention, origin=org)
     geo.atmosphere_volume = _val(values, 'atmvol', 1.e25); geo.atmosphere_connection = _val(values, 'atmcon', 1.e-6)
     bottom = org[2] - sum(dz)
@@ -183,12 +183,13 @@ def native_rectgeo(arg, values):
     from t2grids import t2grid
     nx, ny, nz, atm, convention, nsurf = arg[:6]
     dx = [_val(values, 'dx%d' % k, 10. + 3 * k) for k in range(nx)]; dy = [_val(values, 'dy%d' % k, 8. + 2 * k) for k in range(ny)]; dz = [_val(values, 'dz%d' % k, 5. + k) for k in range(nz)]
-    geo = mulgrid().rectangular(dx, dy, dz, atmos_type=atm, convention=0, origin=[0., 0., 0.])
+    org = [_val(values, 'ox', 0.), _val(values, 'oy', 0.), _val(values, 'oz', 0.)]
+    geo = mulgrid().rectangular(dx, dy, dz, atmos_type=atm, convention=0, origin=org)
     geo.atmosphere_volume = max(_val(values, 'atmvol', 1.e25), 1.e25); geo.atmosphere_connection = _val(values, 'atmcon', 1.e-6)
-    bottom = -sum(dz)
-    surf = [0.] * (nx * ny)
+    bottom = org[2] - sum(dz)
+    surf = [org[2]] * (nx * ny)
     for k in range(min(nsurf, nx * ny)):
-        s = _val(values, 'surf%d' % k, -0.4 * dz[0])
+        s = _val(values, 'surf%d' % k, org[2] - 0.4 * dz[0])
         geo.columnlist[k].surface = s; geo.set_column_num_layers(geo.columnlist[k]); surf[k] = s
     geo.setup_block_name_index(); geo.setup_block_connection_name_index()
     grid = t2grid().fromgeo(geo)
@@ -205,10 +206,11 @@ def native_rectgeo(arg, values):
         for ci, c in enumerate(geo2.columnlist):
             i, j = ci % nx, ci // nx
             bb = c.bounding_box
-            want = (sum(dx[:i]), sum(dy[:j]), sum(dx[:i + 1]), sum(dy[:j + 1]))
+            want = (org[0] + sum(dx[:i]), org[1] + sum(dy[:j]), org[0] + sum(dx[:i + 1]), org[1] + sum(dy[:j + 1]))
             if not all(close(a, b) for a, b in zip((bb[0][0], bb[0][1], bb[1][0], bb[1][1]), want)): bad.append('column %d box %r, original %r' % (ci, bb, want))
             if not close(c.surface, surf[ci]): bad.append('column %d surface %r, original %r' % (ci, c.surface, surf[ci]))
     if geo2.atmosphere_type != atm or geo2.convention != convention: bad.append('atmosphere type / convention not as requested')
+    if abs(geo2.permeability_angle) > 1e-9 or abs(geo2.layerlist[0].bottom - org[2]) > 1e-9 * max(1., abs(org[2])): bad.append('orientation %r / top elevation %r, original 0 / %r' % (geo2.permeability_angle, geo2.layerlist[0].bottom, org[2]))
     try:
         g2 = t2grid().fromgeo(geo2, bm)
         n1, n2 = [b.name for b in grid.blocklist], [b.name for b in g2.blocklist]
